@@ -41,6 +41,10 @@ Failures(T) ==
        \cup (IF T.exc # "" THEN {} ELSE
             Fail("C05", "IsSummedBestCaseShapleyGain", InIv(ExploitabilityN(t), T.en))
        \cup Fail("C05", "IsBinomiallyWeightedGap", (t.lo[0] = 0 /\ t.up[0] = 0 /\ t.lo[Grand] = t.up[Grand]) => InIv(BinomialGapN(t), T.en))
+       \cup Fail("C05", "MaxGainGameIsUpperForMembersLowerElse",
+                 Len(T.mg) = N /\ \A i \in Players : Arr(T.mg[i + 1]) = MaxGain(i, t))
+       \cup Fail("C05", "ReadingMaxGainGamesLeavesBoundsUntouched",
+                 Arr(T.lo_after) = t.lo /\ Arr(T.up_after) = t.up /\ T.en_after = T.en)
        \cup Fail("C05", "NonNegativeWhenOrdered", (\A c \in Coals : t.lo[c] <= t.up[c]) => T.en[2] >= 0)
        \cup Fail("C05", "ZeroIffDegenerate", (\A c \in Coals : t.lo[c] <= t.up[c]) => (InIv(0, T.en) <=> AllDegenerate(t))))
     [] T.kind = "dom" ->
